@@ -275,3 +275,33 @@ Proof.
   intros W Hlb. unfold parse_file_x, write_file_x.
   exact (parse_file_roundtrip _ _ _ _ num_text_dec nat_text_dec e W Hlb).
 Qed.
+
+Theorem canon_wf_x e : wf_election_x e = true -> wf_election_x (canon_x e) = true.
+Proof. exact (canon_wf show_q_dec read_q_dec show_nat_dec read_nat_dec num_text_dec nat_text_dec e). Qed.
+
+Theorem roundtrip_idempotent_x e :
+  wf_election_x e = true ->
+  let e1 := canon_x e in
+  parse_rows_x (write_rows_x e) = Some e1
+  /\ wf_election_x e1 = true
+  /\ exists e2, parse_rows_x (write_rows_x e1) = Some e2 /\ election_equiv e2 e1.
+Proof. exact (roundtrip_idempotent show_q_dec read_q_dec show_nat_dec read_nat_dec num_text_dec nat_text_dec e). Qed.
+
+Lemma election_equiv_spec a b : election_equiv a b ->
+  Permutation.Permutation (e_meta a) (e_meta b)
+  /\ Forall2 (fun p q => p_name p = p_name q /\ p_cost p = p_cost q /\ p_cats p = p_cats q
+                         /\ p_targets p = p_targets q /\ Permutation.Permutation (p_meta p) (p_meta q))
+             (e_projects a) (e_projects b)
+  /\ e_budget a = e_budget b /\ e_vtype a = e_vtype b
+  /\ Forall2 (fun x y => b_projects x = b_projects y /\ b_points x = b_points y /\ b_mult x = b_mult y
+                         /\ Permutation.Permutation (b_meta x) (b_meta y))
+             (e_ballots a) (e_ballots b)
+  /\ e_min_len a = e_min_len b /\ e_max_len a = e_max_len b
+  /\ e_min_cost a = e_min_cost b /\ e_max_cost a = e_max_cost b
+  /\ e_min_total a = e_min_total b /\ e_max_total a = e_max_total b
+  /\ e_min_score a = e_min_score b /\ e_max_score a = e_max_score b.
+Proof.
+  intros [H1 H2 H3 H4 H5 L1 L2 L3 L4 L5 L6 L7 L8]. repeat split; try assumption.
+  - induction H2 as [|p q ps qs [A B C D E] _ IH]; constructor; auto.
+  - induction H5 as [|x y xs ys [A B C D] _ IH]; constructor; auto.
+Qed.
